@@ -246,6 +246,24 @@ def base_terms_rule(ctx):
                 res.ok("%s._log_z depends on the event shape only" % cname)
             else:
                 res.fail(Finding("BASE-TERMS", cls.module, cname + ".__init__", ai.node, "the normaliser must be a function of the event shape only; it mentions %s" % sorted(names)))
+            # structure of the Gaussian normaliser: 0.5 * (number of event elements) * log(2 pi)
+            core = ai.value
+            if isinstance(core, ast.Call) and norm_text(core.func) in ("torch.tensor", "torch.as_tensor") and core.args:
+                core = core.args[0]
+            ps, fac = product_factors(core)
+            ftxt = [norm_text(f).replace(" ", "") for f in fac]
+            half = [f for f in fac if const_number(f) == 0.5]
+            numel = [t for t in ftxt if t in ("np.prod(shape)", "math.prod(shape)", "torch.Size(shape).numel()", "int(np.prod(shape))", "self._shape.numel()")]
+            log2pi = [t for t in ftxt if t in ("np.log(2*np.pi)", "math.log(2*math.pi)", "np.log(2*math.pi)", "math.log(2*np.pi)", "np.log(2.0*np.pi)")]
+            wrong_count = [t for t in ftxt if t in ("len(shape)", "shape[0]", "shape[-1]", "len(self._shape)")]
+            if wrong_count:
+                res.fail(Finding("BASE-TERMS", cls.module, cname + ".__init__", ai.node, "the Gaussian normaliser must count every element of the event shape (prod(shape)); `%s` is wrong for multi-dimensional events" % wrong_count[0]))
+            elif len(fac) == 3 and half and numel and log2pi and ps == 1:
+                res.ok("%s._log_z = 0.5 * prod(shape) * log(2 pi)" % cname)
+            elif len(fac) >= 2 and (not half or not log2pi or ps != 1) and (numel or "shape" in names):
+                res.fail(Finding("BASE-TERMS", cls.module, cname + ".__init__", ai.node, "the Gaussian normaliser must be 0.5 * prod(shape) * log(2 pi); found factors %s%s" % ("-" if ps < 0 else "", ftxt)))
+            else:
+                res.notes.append("%s._log_z has a spelling the rule does not classify: %s" % (cname, ftxt))
     return res
 
 
